@@ -1487,6 +1487,9 @@ def build_program(ch: Chooser, max_files: int = 6, min_files: int = 1, import_co
             have = sum(1 for d in b.defs.values() if d.kind == "message")
             quota["message"] = max(quota["message"], min_messages - have)
         b.fill_file(prog.spec(f), vis, quota)
+    for s_ in specs:
+        if not s_.imports and not s_.defs and not s_.null_sections:
+            s_.null_sections = [ch.choice(["imports"] + SECTIONS)]  # a file always has at least one section key
     prog.classes |= b.classes
     prog.rerender()
     an = prog._analysis()
@@ -2425,3 +2428,47 @@ def parse_program(program: Program, dirpath: Optional[str] = None, keep: bool = 
             pass
         if own and not keep:
             shutil.rmtree(d, ignore_errors=True)
+
+
+class ShrinkBudget:
+    """Bounds the effort Hypothesis spends minimising a failure when generation itself is not free: once
+    ``seconds`` have passed since the first violation, the wrapped strategy draws nothing and yields None, and the
+    wrapped body ignores None, so the remaining shrink attempts cost nothing.
+
+        sb = ShrinkBudget(15); hyp_run(sb.body(check), sb.wrap(programs()), seed, n, res)
+    """
+
+    def __init__(self, seconds: float = 15.0):
+        self.seconds = seconds
+        self.t0 = None
+
+    def expired(self) -> bool:
+        import time
+
+        return self.t0 is not None and time.time() - self.t0 > self.seconds
+
+    def wrap(self, strategy):
+        from hypothesis import strategies as st
+
+        @st.composite
+        def _g(draw):
+            if self.expired():
+                return None
+            return draw(strategy)
+
+        return _g()
+
+    def body(self, fn):
+        import time
+
+        def _b(value):
+            if value is None:
+                return
+            try:
+                fn(value)
+            except Exception as e:  # noqa
+                if type(e).__name__ == "Violation" and self.t0 is None:
+                    self.t0 = time.time()
+                raise
+
+        return _b
